@@ -67,7 +67,7 @@ fn engine(kind: &str, query: &str, rb: Arc<RankBuilder>) -> Option<Box<dyn Match
             p.case = CaseMatching::Respect;
             Box::new(ExactEngine::builder(query, p).rank_builder(rb).build())
         }
-        "regex" => Box::new(RegexEngine::builder(query, CaseMatching::Respect).rank_builder(rb).build()),
+        "regex" | "regexbad" => Box::new(RegexEngine::builder(query, CaseMatching::Respect).rank_builder(rb).build()),
         "fuzzy" => Box::new(
             FuzzyEngine::builder()
                 .query(query)
